@@ -107,6 +107,7 @@ struct xmi2mid_xmi_ctx {
     midi_event *current;
     std::vector<std::vector<uint8_t > > *dyn_out;
     std::vector<uint8_t > *dyn_out_cur;
+    int src_overrun; /* set once the source was read or sought past its end: the file is corrupt */
 };
 
 typedef struct {
@@ -131,10 +132,23 @@ static int xmi2mid_ParseXMI(struct xmi2mid_xmi_ctx *ctx);
 static int xmi2mid_ExtractTracks(struct xmi2mid_xmi_ctx *ctx, int32_t dstTrackNumber);
 static uint32_t xmi2mid_ExtractTracksFromXmi(struct xmi2mid_xmi_ctx *ctx);
 
+/* All source accesses are bounds-checked: past the end they yield zeros, park the cursor
+ * at the end (so that every "while not at the end" loop terminates) and flag the overrun. */
+static int xmi2mid_src_avail(struct xmi2mid_xmi_ctx *ctx, uint32_t len)
+{
+    if (ctx->src_ptr >= ctx->src && ctx->src_ptr <= ctx->src_end &&
+        len <= (uint32_t)(ctx->src_end - ctx->src_ptr))
+        return 1;
+    ctx->src_ptr = ctx->src_end;
+    ctx->src_overrun = 1;
+    return 0;
+}
+
 static uint32_t xmi2mid_read1(struct xmi2mid_xmi_ctx *ctx)
 {
     uint8_t b0;
-    assert(ctx->src_ptr + 1 < ctx->src_end);
+    if (!xmi2mid_src_avail(ctx, 1))
+        return 0;
     b0 = *ctx->src_ptr++;
     return (b0);
 }
@@ -142,7 +156,8 @@ static uint32_t xmi2mid_read1(struct xmi2mid_xmi_ctx *ctx)
 static uint32_t xmi2mid_read2(struct xmi2mid_xmi_ctx *ctx)
 {
     uint8_t b0, b1;
-    assert(ctx->src_ptr + 2 < ctx->src_end);
+    if (!xmi2mid_src_avail(ctx, 2))
+        return 0;
     b0 = *ctx->src_ptr++;
     b1 = *ctx->src_ptr++;
     return (b0 + ((uint32_t)b1 << 8));
@@ -151,7 +166,8 @@ static uint32_t xmi2mid_read2(struct xmi2mid_xmi_ctx *ctx)
 static uint32_t xmi2mid_read4(struct xmi2mid_xmi_ctx *ctx)
 {
     uint8_t b0, b1, b2, b3;
-    assert(ctx->src_ptr + 4 < ctx->src_end);
+    if (!xmi2mid_src_avail(ctx, 4))
+        return 0;
     b3 = *ctx->src_ptr++;
     b2 = *ctx->src_ptr++;
     b1 = *ctx->src_ptr++;
@@ -162,7 +178,8 @@ static uint32_t xmi2mid_read4(struct xmi2mid_xmi_ctx *ctx)
 static uint32_t xmi2mid_read4le(struct xmi2mid_xmi_ctx *ctx)
 {
     uint8_t b0, b1, b2, b3;
-    assert(ctx->src_ptr + 4 < ctx->src_end);
+    if (!xmi2mid_src_avail(ctx, 4))
+        return 0;
     b3 = *ctx->src_ptr++;
     b2 = *ctx->src_ptr++;
     b1 = *ctx->src_ptr++;
@@ -172,7 +189,10 @@ static uint32_t xmi2mid_read4le(struct xmi2mid_xmi_ctx *ctx)
 
 static void xmi2mid_copy(struct xmi2mid_xmi_ctx *ctx, char *b, uint32_t len)
 {
-    assert(ctx->src_ptr + len < ctx->src_end);
+    if (!xmi2mid_src_avail(ctx, len)) {
+        memset(b, 0, len);
+        return;
+    }
     memcpy(b, ctx->src_ptr, len);
     ctx->src_ptr += len;
 }
@@ -219,6 +239,11 @@ static void xmi2mid_write4(struct xmi2mid_xmi_ctx *ctx, uint32_t val)
 }
 
 static void xmi2mid_seeksrc(struct xmi2mid_xmi_ctx *ctx, uint32_t pos) {
+    if (pos > ctx->srcsize) {
+        ctx->src_ptr = ctx->src_end;
+        ctx->src_overrun = 1;
+        return;
+    }
     ctx->src_ptr = ctx->src + pos;
 }
 
@@ -230,7 +255,24 @@ static void xmi2mid_seekdst(struct xmi2mid_xmi_ctx *ctx, uint32_t pos) {
 }
 
 static void xmi2mid_skipsrc(struct xmi2mid_xmi_ctx *ctx, int32_t pos) {
+    if ((pos >= 0 && pos > ctx->src_end - ctx->src_ptr) ||
+        (pos < 0 && -(int64_t)pos > ctx->src_ptr - ctx->src)) {
+        ctx->src_ptr = ctx->src_end;
+        ctx->src_overrun = 1;
+        return;
+    }
     ctx->src_ptr += pos;
+}
+
+/* Skips the (word aligned) body of a chunk; chunk lengths are untrusted 32-bit values */
+static void xmi2mid_skipchunk(struct xmi2mid_xmi_ctx *ctx, uint32_t len) {
+    uint32_t rest = (uint32_t)(ctx->src_end - ctx->src_ptr);
+    if (len > rest || ((len + 1) & ~1u) > rest) {
+        ctx->src_ptr = ctx->src_end;
+        ctx->src_overrun = 1;
+        return;
+    }
+    ctx->src_ptr += (len + 1) & ~1u;
 }
 
 static void xmi2mid_skipdst(struct xmi2mid_xmi_ctx *ctx, int32_t pos) {
@@ -901,7 +943,17 @@ static int32_t xmi2mid_ConvertSystemMessage(struct xmi2mid_xmi_ctx *ctx, const i
     if (!ctx->current->len)
         return (i);
 
+    if (!xmi2mid_src_avail(ctx, ctx->current->len)) {
+        ctx->current->len = 0;
+        return (i);
+    }
+
     ctx->current->buffer = (uint8_t *)malloc(sizeof(uint8_t)*ctx->current->len);
+    if (!ctx->current->buffer) {
+        ctx->current->len = 0;
+        ctx->src_overrun = 1;
+        return (i);
+    }
     xmi2mid_copy(ctx, (char *) ctx->current->buffer, ctx->current->len);
 
     return (i + ctx->current->len);
@@ -927,7 +979,7 @@ static int32_t xmi2mid_ConvertFiletoList(struct xmi2mid_xmi_ctx *ctx, const xmi2
         ctx->current->data[1] = 127;
     }
 
-    while (!end && xmi2mid_getsrcpos(ctx) < file_size) {
+    while (!end && !ctx->src_overrun && xmi2mid_getsrcpos(ctx) < file_size) {
         uint32_t offset = xmi2mid_getsrcpos(ctx) - begin;
 
         /* search for branch to this offset */
@@ -996,7 +1048,7 @@ static int32_t xmi2mid_ConvertFiletoList(struct xmi2mid_xmi_ctx *ctx, const xmi2
                 } else if (dat == 0x51 && tempo_set) /* Skip any other tempo changes */
                 {
                     xmi2mid_GetVLQ(ctx, &dat);
-                    xmi2mid_skipsrc(ctx, dat);
+                    xmi2mid_skipsrc(ctx, (int32_t)(dat & 0x0FFFFFFF));
                     break;
                 }
 
@@ -1113,7 +1165,7 @@ static uint32_t xmi2mid_ExtractTracksFromXmi(struct xmi2mid_xmi_ctx *ctx) {
     for (unsigned i = 0; i < 128; ++i)
         branch[i] = ~0u;
 
-    while (xmi2mid_getsrcpos(ctx) < xmi2mid_getsrcsize(ctx) && num != ctx->info.tracks) {
+    while (!ctx->src_overrun && xmi2mid_getsrcpos(ctx) < xmi2mid_getsrcsize(ctx) && num != ctx->info.tracks) {
         /* Read first 4 bytes of name */
         xmi2mid_copy(ctx, buf, 4);
         len = xmi2mid_read4(ctx);
@@ -1151,12 +1203,13 @@ static uint32_t xmi2mid_ExtractTracksFromXmi(struct xmi2mid_xmi_ctx *ctx) {
             }
 
         rbrn_nodata:
-            xmi2mid_seeksrc(ctx, begin + ((len + 1) & ~1));
+            xmi2mid_seeksrc(ctx, begin);
+            xmi2mid_skipchunk(ctx, len);
             continue;
         }
 
         if (memcmp(buf, "EVNT", 4)) {
-            xmi2mid_skipsrc(ctx, (len + 1) & ~1);
+            xmi2mid_skipchunk(ctx, len);
             continue;
         }
 
@@ -1187,7 +1240,14 @@ static uint32_t xmi2mid_ExtractTracksFromXmi(struct xmi2mid_xmi_ctx *ctx) {
         num++;
 
         /* go to start of next track */
-        xmi2mid_seeksrc(ctx, begin + ((len + 1) & ~1));
+        {
+            int overrun_before = ctx->src_overrun;
+            xmi2mid_seeksrc(ctx, begin);
+            xmi2mid_skipchunk(ctx, len);
+            /* tolerate a last EVNT chunk that claims more than the file holds, its events are read already */
+            if (!overrun_before && num == ctx->info.tracks)
+                ctx->src_overrun = 0;
+        }
 
         /* clear branch points */
         for (unsigned i = 0; i < 128; ++i)
@@ -1255,7 +1315,9 @@ badfile:    /*_WM_GLOBAL_ERROR(__FUNCTION__, __LINE__, WM_ERR_CORUPT, "(too shor
 
                 if (memcmp(buf, "INFO", 4)) {
                     /* Must align */
-                    xmi2mid_skipsrc(ctx, (chunk_len + 1) & ~1);
+                    xmi2mid_skipchunk(ctx, chunk_len);
+                    if (ctx->src_overrun)
+                        break;
                     i += (chunk_len + 1) & ~1;
                     continue;
                 }
@@ -1275,8 +1337,9 @@ badfile:    /*_WM_GLOBAL_ERROR(__FUNCTION__, __LINE__, WM_ERR_CORUPT, "(too shor
 
             /* Ok now to start part 2
              * Goto the right place */
-            xmi2mid_seeksrc(ctx, start + ((len + 1) & ~1));
-            if (xmi2mid_getsrcpos(ctx) + 12 > file_size)
+            xmi2mid_seeksrc(ctx, start);
+            xmi2mid_skipchunk(ctx, len);
+            if (ctx->src_overrun || xmi2mid_getsrcpos(ctx) + 12 > file_size)
                 goto badfile;
 
             /* Read 4 bytes of type */
@@ -1314,13 +1377,15 @@ static int xmi2mid_ExtractTracks(struct xmi2mid_xmi_ctx *ctx, int32_t dstTrackNu
 
     ctx->events = (midi_event **)calloc(ctx->info.tracks, sizeof(midi_event*));
     ctx->timing = (int16_t *)calloc(ctx->info.tracks, sizeof(int16_t));
+    if (!ctx->events || !ctx->timing)
+        return (-1);
     /* type-2 for multi-tracks, type-0 otherwise */
     ctx->info.type = (ctx->info.tracks > 1 && (dstTrackNumber < 0 || ctx->info.tracks >= dstTrackNumber))? 2 : 0;
 
     xmi2mid_seeksrc(ctx, ctx->datastart);
     i = xmi2mid_ExtractTracksFromXmi(ctx);
 
-    if (i != ctx->info.tracks) {
+    if (i != ctx->info.tracks || ctx->src_overrun) {
         /*_WM_ERROR_NEW("XMI error: extracted only %u out of %u tracks from XMIDI",
                  ctx->info.tracks, i);*/
         return (-1);
